@@ -27,7 +27,7 @@ ASSUMPTIONS = [
 ]
 
 RESERVED = ("task_uuid", "task_level", "timestamp", "action_status", "action_type")
-NAMES = ["x", "y", "logger", "action_type", "_serializers", "message_type", "args", "kwargs", "self", "result", "task_uuid"]
+NAMES = ["x", "y", "logger", "action_type", "_serializers", "message_type", "args", "kwargs", "self", "result", "task_uuid", "cls", "include_args", "wrapped_function"]
 
 TEMPLATES = [
     ("plain2", "def f({a}, {b}):", 2),
@@ -203,7 +203,7 @@ def body_E1(ctx):
                     ctx.check("result" not in en, "result logged despite include_result=False")
                 else:
                     ctx.check(en.get("result") == exp[1], "logged result %r, returned %r", en.get("result"), exp[1])
-    hostile = bool(set(names) & {"logger", "action_type", "_serializers", "self", "args", "kwargs", "message_type", "task_uuid", "result"})
+    hostile = bool(set(names) & {"logger", "action_type", "_serializers", "self", "args", "kwargs", "message_type", "task_uuid", "result", "cls", "include_args", "wrapped_function"})
     if hostile or exp[0] == "TypeError" or template[0] in ("posonly", "posonly-varkw", "varpos", "var-both", "all-kinds"):
         ctx.nontrivial((json.dumps(sh, sort_keys=True), tuple(ctx.trace)))
     if hostile and exp[0] == "returned":
